@@ -44,8 +44,20 @@ type V3Op struct {
 
 // V3Plan is the v3sim part of a plan.
 type V3Plan struct {
-	Ops  []V3Op `json:"ops"`
-	Seed bool   `json:"seed"` // the Configuration record is created with one initial committed value
+	// RefuseRollback (resolved by the runner): the plan is run once to find the Set with which a rolled-back transaction
+	// applies its rollback (the second Set its reconciles issue); the device then definitely refuses that Set and the
+	// Burst-th store write after the answer fails (Kind op-unavail) or loses its acknowledgement (op-acklost)
+	RefuseRollback *V3Refuse `json:"refuseRollback,omitempty"`
+	Ops            []V3Op    `json:"ops"`
+	Seed           bool      `json:"seed"` // the Configuration record is created with one initial committed value
+}
+
+// V3Refuse: see V3Plan.RefuseRollback.
+type V3Refuse struct {
+	Pick  int    `json:"pick"`
+	Code  int    `json:"code"`
+	Kind  string `json:"kind"` // "" | op-unavail | op-acklost
+	Burst int    `json:"burst"`
 }
 
 type v3Event struct {
@@ -202,6 +214,18 @@ func genV3Plan(seed uint64, tier string) *Plan {
 			p.Faults = append(p.Faults, f)
 		}
 	}
+	hasRollback := false
+	for _, o := range vp.Ops {
+		if o.Kind == "rollback" {
+			hasRollback = true
+		}
+	}
+	if hasRollback && g.chance(1, 3) {
+		// the device refuses exactly the Set of a rollback, and (two times in three) a store write right after that answer
+		// fails: the two-write transitions of the rollback path under a refusal
+		refusals := []codes.Code{codes.InvalidArgument, codes.Internal, codes.Unknown, codes.FailedPrecondition}
+		vp.RefuseRollback = &V3Refuse{Pick: g.pick(3), Code: int(refusals[g.pick(len(refusals))]), Kind: []string{"", "op-unavail", "op-acklost"}[g.pick(3)], Burst: g.pick(3)}
+	}
 	if g.chance(1, 3) {
 		// the device definitely refuses one of the Sets (a change's or a rollback's); in half of these runs a store write
 		// right after that answer fails or loses its acknowledgement
@@ -226,6 +250,36 @@ func init() {
 }
 
 func runV3(t *testing.T, plan *Plan) *Result {
+	if plan.V3 != nil && plan.V3.RefuseRollback != nil {
+		rr := plan.V3.RefuseRollback
+		pass1 := plan.Clone()
+		pass1.V3.RefuseRollback = nil
+		r1 := runV3(t, pass1)
+		if r1.Harness != "" || len(r1.Viol) > 0 {
+			r1.Plan = pass1
+			return r1
+		}
+		var ns []int
+		for _, f := range strings.Split(r1.Extra["rollback-apply-sets"], ",") {
+			var n int
+			if _, err := fmt.Sscan(f, &n); err == nil && n > 0 {
+				ns = append(ns, n)
+			}
+		}
+		final := plan.Clone()
+		final.V3.RefuseRollback = nil
+		if len(ns) > 0 {
+			n := ns[rr.Pick%len(ns)]
+			final.Faults = append(final.Faults, Fault{Kind: "dev-error", On: "devset", Target: "t1", N: n, Code: rr.Code})
+			if rr.Kind != "" {
+				final.Faults = append(final.Faults, Fault{Kind: rr.Kind, On: "after-devset", Target: "t1", N: n, Burst: rr.Burst})
+			}
+			final.Profile += "+rollback-refused"
+		}
+		res := runV3(t, final)
+		res.Plan = final
+		return res
+	}
 	res := &Result{Plan: plan}
 	start := time.Now()
 	func() {
@@ -983,6 +1037,29 @@ func v3Bubble(plan *Plan, res *Result) {
 	res.Trace = k.Trace
 	res.TraceHash = fmt.Sprintf("%016x", k.TraceHash())
 	res.Stats = k.Stats
+	// the Sets with which rolled-back transactions applied their rollback: the second accepted Set of a transaction
+	{
+		per := map[string]int{}
+		var ns []string
+		s.dev.mu.Lock()
+		for _, q := range s.dev.Log {
+			if strings.HasPrefix(q.Task, "rec/transaction") && q.Outcome == "ok" {
+				id := q.Task
+				if i := strings.LastIndex(id, "~"); i >= 0 {
+					id = id[:i]
+				}
+				per[id]++
+				if per[id] == 2 {
+					ns = append(ns, fmt.Sprint(q.N))
+				}
+			}
+		}
+		s.dev.mu.Unlock()
+		if res.Extra == nil {
+			res.Extra = map[string]string{}
+		}
+		res.Extra["rollback-apply-sets"] = strings.Join(ns, ",")
+	}
 	res.Probes = k.Probes
 	res.Used = plan.Sched.Used()
 	res.Effects = s.eff.N
